@@ -42,6 +42,10 @@ CHECKS = {
             "predicates; MCSeat checks the precise model for all histories on 3 seats (4, 5 thorough); the real manager's reachable graph is "
             "enumerated (3 seats with identities, 5 seats up to identities) and every call validated, plus random and TLC-generated histories. "
             "One open known finding (F8)."),
+    "C09": ("spec/RegProps.tla C09_* on every call of real tournaments (queue read through the verif snapshot hook)",
+            "Every live player in exactly one place (queue or one table), no duplicates, the regulator's totals equal the real numbers wherever "
+            "the instruction has been carried out, refusals leave everything unchanged; MCReg checks the precise model + obedient tables for all "
+            "histories of small tournaments; real regulator driven by random tournaments, a settings sweep and TLC-generated scripts."),
     "C10": ("spec/HoldemProps.tla C10_* with HandRank.Admissible/RefKey on every street of real hands (constructed and random decks)",
             "Each published hand is five own cards, admissible (exactly the required hole cards), unbeaten by any admissible selection under "
             "RefKey, with category/strength equal to the evaluator re-run on those cards, stable between streets, and the showdown pays by the "
@@ -65,6 +69,12 @@ CHECKS = {
             "Join/Leave/any-seat semantics, seated = joins - leaves, no panic on any call incl. out-of-range seats; concurrent joins: one "
             "goroutine is held between check and commit by the verif gate hook while the others must block on the mutex; the episode "
             "predicates are order-free; SeatJoinConc model-checks all interleavings of Lock/Check/Commit/Unlock."),
+    "C19": ("spec/RegProps.tla C19_* over a sweep of all settings 2<=min<=max<=6 (10 thorough) x registrant counts x batch modes",
+            "No request/assign/sync hand-out ever makes a table exceed the maximum, no table before the start or before min registrants, "
+            "initial tables get at least min; MCReg for small settings, sweep + random tournaments on the real regulator."),
+    "C20": ("spec/RegProps.tla C20_* settle episodes (sweeps of out=0 syncs) + liveness Settles in MCReg",
+            "From reachable states, sweeping all tables with no eliminations reaches a full quiet sweep within 8 sweeps (model needs 2, real 3); "
+            "a broken table releases all members and each is re-queued or re-seated elsewhere; liveness `settle ~> done` under weak fairness on the model."),
 }
 
 
